@@ -616,7 +616,8 @@ def generate(vc_path, out_dir, canary=False, lenient=False):
                     fs.subs.append((r"^(\s*)pub(\([a-z]+\))?\s+fn\b", r"\1fn", "visibility only: contracts of this function mention private fields/spec functions"))
                 elif ods[k2].name == "sub":
                     m2 = re.match(r"/((?:[^/\\]|\\.)*)/((?:[^/\\]|\\.)*)/\s*(.*)$", ods[k2].arg)
-                    if m2 and m2.group(1).startswith("pub fn "):
+                    if m2 and (m2.group(1).startswith("pub fn ") or "ghost parameter" in parse_opts(m2.group(3)).get("why", "")):
+                        # signature-affecting rewrites travel with the contract
                         fs.subs.append((m2.group(1), m2.group(2).replace("\\/", "/"), parse_opts(m2.group(3)).get("why", "")))
                 k2 += 1
             m5 = re.search(r"\bsub=/((?:[^/\\]|\\.)*)/((?:[^/\\]|\\.)*)/", d.arg)
